@@ -709,3 +709,49 @@ Proof. exact LimitExample.comp_writer_limit_arm. Qed.
 Print Assumptions C01_limit_writer_arm.
 Print Assumptions C01_limit_reader_arm.
 Print Assumptions C01_limit_comp_writer_arm.
+
+(* ====================================================================================
+   The BLOCK PARSER, translated (work package blockT): gen/Src3b.v holds ArchiveFileBlock::from and
+   ArchiveFileBlockType::try_from statement by statement (tools/src2v3_block.py); it IS Blocks.parse_block for
+   every stream, state, FILENAME_MAX_SIZE and discriminants.  The level-1 translations of the reader, the
+   repair loop and linear_extract call THIS function: "ArchiveFileBlock::from = Blocks.parse_block" is no
+   longer a trusted link.
+   ==================================================================================== *)
+From MLA Require SrcTie3Block SrcTie3Reader.
+From MLAGen Require Src3b.
+Theorem C01_tie_block_from_src :
+  forall (S : Stream) (FNMAX T_START T_CONTENT T_EOA T_EOF : N) (s : st S),
+    Src3b.ArchiveFileBlock_from S FNMAX T_START T_CONTENT T_EOA T_EOF 636 s =
+    parse_block FNMAX T_START T_CONTENT T_EOA T_EOF S s.
+Proof. exact SrcTie3Block.block_from_src. Qed.
+Print Assumptions C01_tie_block_from_src.
+Theorem C01_tie_bfr_read_sim_full : ltac:(let t := type of @SrcTie3Reader.bfr_read_sim_full in exact t).
+Proof. exact (@SrcTie3Reader.bfr_read_sim_full). Qed.
+Print Assumptions C01_tie_bfr_read_sim_full.
+Theorem C01_tie_bfr_read_calls_translated_from : ltac:(let t := type of @SrcTie3Reader.bfr_read_calls_translated_from in exact t).
+Proof. exact (@SrcTie3Reader.bfr_read_calls_translated_from). Qed.
+Print Assumptions C01_tie_bfr_read_calls_translated_from.
+(* the name limit: exactly FILENAME_MAX_SIZE bytes are accepted, one more is refused before it is read (seeded C01-m4 / C09-m4) *)
+Check SrcTie3Block.block_from_name_limit.
+Check SrcTie3Block.block_from_runs_start.
+
+(* ====================================================================================
+   The archive HEADER, translated (work package blockT/B, gen/Src3h.v): the TRANSLATED ArchiveHeader::dump is
+   the model's Archive.dump_header (the first step of archive_write in C01_archive_roundtrip), and the
+   TRANSLATED ArchiveHeader::from is HeaderStream.read_header_s.
+   ==================================================================================== *)
+From MLA Require HeaderStream SrcTie3Header.
+From MLAGen Require Src3h.
+
+Theorem C01_tie_header_dump :
+  forall h : Format.header,
+  SrcTie3Header.dump_result (Src3h.ArchiveHeader_dump Src3h.MLA_FORMAT_VERSION h []) =
+  Archive.dump_header Src3h.BINCODE_MAX_DESERIALIZE h.
+Proof. exact SrcTie3Header.header_dump_src. Qed.
+Print Assumptions C01_tie_header_dump.
+
+Theorem C01_tie_header_from :
+  forall (S : Stream) (s : st S),
+    Src3h.ArchiveHeader_from S s = HeaderStream.read_header_s S Src3h.BINCODE_MAX_DESERIALIZE s.
+Proof. exact SrcTie3Header.header_from_src. Qed.
+Print Assumptions C01_tie_header_from.
